@@ -126,6 +126,28 @@ Theorem C25_after_timeout_if_shell_discarded_partial : forall sh c1 cs outs late
   run_all true sh (c1 :: cs) = (c_fresh c1, 2) :: map (fun oc => (inl (py_strip (fst oc), snd oc), 1)) outs.
 Proof. exact timeout_then_wf. Qed.
 
+(* ---- BaseConnector.run as a decision: persistent shell iff job_name is None and stdin is None, else a fresh
+        process; capture_output selects _read_with_output / _read_without_output.  On the domain WITHOUT
+        timeouts (clean shell, well-framed response) every combination starts the command exactly once, returns
+        (strip out, code) / None through the shell or the fresh process's own result otherwise, and leaves the
+        shell clean.  With a timeout the count is 2: C25_exactly_once_after_timeout_refuted. *)
+Theorem C25_run_exactly_once_partial : forall flag sh q c out code fresh,
+  clean sh -> wf_cmd c out code ->
+  exists sh',
+    run_any flag sh q (c_marker c) (c_resp c) fresh
+    = (if use_shell q then inl (if r_capture q then Some (py_strip out, code) else None) else fresh,
+       sh', 1, if use_shell q then ViaShell else ViaSubprocess)
+    /\ clean sh'.
+Proof. exact run_any_once. Qed.
+Example C25_run_paths_example :
+  use_shell {| r_job := false; r_stdin := false; r_capture := true |} = true /\
+  use_shell {| r_job := true; r_stdin := false; r_capture := true |} = false /\
+  use_shell {| r_job := false; r_stdin := true; r_capture := false |} = false /\
+  run_any false new_shell {| r_job := false; r_stdin := false; r_capture := false |} "M2" (c_resp c_three) (inr EHang)
+    = (inl None, new_shell, 1, ViaShell) /\
+  snd (fst (run_any false new_shell {| r_job := false; r_stdin := false; r_capture := false |} "M1" (c_resp c_to) (inr ETimeout))) = 2.
+Proof. repeat split; vm_compute; reflexivity. Qed.
+
 (* ---- non-vacuity *)
 Example C25_create_example :
   create_command (map quote ["printf"; "%s"; "a b"]) (Some [("K", "$HOME `id` ""q""")]) (Some "/tmp/my dir")
@@ -158,6 +180,7 @@ Print Assumptions C25_raw_workdir_refuted.
 Print Assumptions C25_framing.
 Print Assumptions C25_marker_free.
 Print Assumptions C25_sequence.
+Print Assumptions C25_run_exactly_once_partial.
 Print Assumptions C25_after_timeout_refuted.
 Print Assumptions C25_exactly_once_after_timeout_refuted.
 Print Assumptions C25_after_timeout_if_shell_discarded_partial.
